@@ -63,7 +63,12 @@ Definition std_files : list (bytes * N) :=
    ([83;65;70;69;47;97;46;116;120;116], 11);
    ([115;97;102;101;47;65;46;116;120;116], 12);
    ([115;97;102;101;47;97;46;84;88;84], 13);
-   ([115;97;102;101;47;115;117;98;47;67;46;116;120;116], 14)].
+   ([115;97;102;101;47;115;117;98;47;67;46;116;120;116], 14);
+   (* names that are the text of a glob: safe/[ab].txt safe/\*.txt safe/[^a].txt, and safe/*.txt *)
+   ([115;97;102;101;47;91;97;98;93;46;116;120;116], 15);
+   ([115;97;102;101;47;92;42;46;116;120;116], 16);
+   ([115;97;102;101;47;91;94;97;93;46;116;120;116], 17);
+   ([115;97;102;101;47;42;46;116;120;116], 18)].
 
 Definition host_extras : list bytes :=
   [[47;101;116;99;47;112;97;115;115;119;100];
@@ -92,12 +97,22 @@ Fixpoint select_mask (mask : N) (i : N) (l : list bytes) : list bytes :=
 Definition tree_files (root : bytes) : list (bytes * N) :=
   map (fun x => (root ++ 47 :: fst x, snd x)) std_files.
 
-Definition mk_world (root : bytes) (mask : N) (pats : list pstr)
+(** [extra]: files the harness created for this case only, named relative to
+    the root like [std_files] (files named exactly like a generated pattern,
+    and the candidates that pattern may match). *)
+Definition all_files (root : bytes) (extra : list (bytes * N)) : list (bytes * N) :=
+  tree_files root ++ map (fun x => (root ++ 47 :: fst x, snd x)) extra.
+
+Definition mk_world_x (root : bytes) (mask : N) (extra : list (bytes * N)) (pats : list pstr)
     (http : list (bytes * N)) (urlok : list bytes) : world :=
   {| w_pats := map (dec root) pats;
-     w_files := tree_files root;
-     w_dirs := flat_map (fun x => ancestors (fst x)) (tree_files root) ++ select_mask mask 0 host_extras;
+     w_files := all_files root extra;
+     w_dirs := flat_map (fun x => ancestors (fst x)) (all_files root extra) ++ select_mask mask 0 host_extras;
      w_http := http; w_urlok := urlok |}.
+
+Definition mk_world (root : bytes) (mask : N) (pats : list pstr)
+    (http : list (bytes * N)) (urlok : list bytes) : world :=
+  mk_world_x root mask nil pats http urlok.
 
 Definition prow := (pstr * bool * N)%type.
 Definition dec_row (root : bytes) (r : prow) : row := (dec root (fst (fst r)), snd (fst r), snd r).
@@ -137,6 +152,22 @@ Inductive case :=
   | CHist (root : bytes) (mask : N) (pats : list pstr)
           (http : list (bytes * N)) (urlok : list bytes)
           (block allow : list prow) (ops : list eop) (obs : list eobs)
+  (* the same with files created for this history only (glob space: a file
+     named exactly like a configured pattern, and what the pattern may match) *)
+  | CHistF (root : bytes) (mask : N) (extra : list (bytes * N)) (pats : list pstr)
+           (http : list (bytes * N)) (urlok : list bytes)
+           (block allow : list prow) (ops : list eop) (obs : list eobs)
+  (* a history through package home: the DNSFilter configured by
+     setupDNSFilteringConf (so with the HTTP client home.httpClient builds),
+     lists planted in the configuration, the registered handlers; only the
+     HTTP status is seen, so the code is 0 accepted / 7 panic / 1 refused *)
+  | CHistH (root : bytes) (mask : N) (pats : list pstr)
+           (http : list (bytes * N)) (urlok : list bytes)
+           (block allow : list prow) (ops : list eop) (obs : list eobs)
+  (* what the client built by home.httpClient handed back for a location
+     ([m]: marker of the body, 0 = nothing): the hypothesis [client_no_local]
+     of the theorems, evaluated on the real client *)
+  | CClient (root : bytes) (loc : pstr) (m : N)
   (* validateFilterURL alone: observed code (0 accepted) *)
   | CValidate (root : bytes) (mask : N) (pats : list pstr) (urlok : list bytes)
               (loc : pstr) (obs : N)
@@ -161,11 +192,23 @@ Definition reader_obs (w : world) (loc : bytes) : N * N :=
 
 Definition eqb_file (a b : bytes * N) : bool := eqb_bytes (fst a) (fst b) && (snd a =? snd b).
 
-Definition hist_trace root mask pats http urlok block allow ops : list obs_step :=
-  let w := mk_world root mask pats http urlok in
+Definition hist_trace_x root mask extra pats http urlok block allow ops : list obs_step :=
+  let w := mk_world_x root mask extra pats http urlok in
   let st := {| s_block := map (fun r => mk_flt (dec_row root r)) block;
                s_allow := map (fun r => mk_flt (dec_row root r)) allow |} in
   map proj_step (trace w st (map (dec_op root) ops)).
+
+Definition hist_trace root mask pats http urlok block allow ops : list obs_step :=
+  hist_trace_x root mask nil pats http urlok block allow ops.
+
+(** what a caller of the HTTP API can tell: accepted, panic, refused *)
+Definition coarse_code (c : N) : N := if c =? 0 then 0 else if c =? 7 then 7 else 1.
+Definition coarse_step (o : obs_step) : obs_step :=
+  match o with (c, u, b, a) => (coarse_code c, u, b, a) end.
+
+(** the observation of the real client as an HTTP table of the world *)
+Definition client_obs_ok (root : bytes) (loc : pstr) (m : N) : bool :=
+  (m =? 0) || client_no_local_b (tree_files root) ((dec root loc, m) :: nil).
 
 Definition case_ok (c : case) : bool :=
   match c with
@@ -174,6 +217,13 @@ Definition case_ok (c : case) : bool :=
   | CHist root mask pats http urlok block allow ops obs =>
       eqb_list eqb_step (hist_trace root mask pats http urlok block allow ops)
                (map (dec_obs root) obs)
+  | CHistF root mask extra pats http urlok block allow ops obs =>
+      eqb_list eqb_step (hist_trace_x root mask extra pats http urlok block allow ops)
+               (map (dec_obs root) obs)
+  | CHistH root mask pats http urlok block allow ops obs =>
+      eqb_list eqb_step (map coarse_step (hist_trace root mask pats http urlok block allow ops))
+               (map (dec_obs root) obs)
+  | CClient root loc m => client_obs_ok root loc m
   | CValidate root mask pats urlok loc obs =>
       let w := mk_world root mask pats nil urlok in
       validate_code (validate_url (w_pats w) (w_exists w) (w_url_ok w) (dec root loc)) =? obs
@@ -193,6 +243,11 @@ Definition explain (c : case) : list obs_step * N * N * bytes :=
   | CTree _ _ => (nil, 0, 0, nil)
   | CHist root mask pats http urlok block allow ops _ =>
       (hist_trace root mask pats http urlok block allow ops, 0, 0, nil)
+  | CHistF root mask extra pats http urlok block allow ops _ =>
+      (hist_trace_x root mask extra pats http urlok block allow ops, 0, 0, nil)
+  | CHistH root mask pats http urlok block allow ops _ =>
+      (map coarse_step (hist_trace root mask pats http urlok block allow ops), 0, 0, nil)
+  | CClient root loc m => (nil, if client_obs_ok root loc m then 0 else 1, m, nil)
   | CValidate root mask pats urlok loc _ =>
       let w := mk_world root mask pats nil urlok in
       (nil, validate_code (validate_url (w_pats w) (w_exists w) (w_url_ok w) (dec root loc)), 0, nil)
